@@ -24,12 +24,14 @@
     pushed (consecutive loop vertices), that nothing else changes the triangle list, and the counting.
 
     FALSE for the faithful model (and the crate), witnesses in Proofs/Mesh_witness.v:
-    - "the number of triangles is |L| - 2": the periodic [sanitize] drops vertices that have become collinear
-      without producing a triangle ([C01_ntriangles_eq_refuted]); the tiling is unaffected (the dropped vertex
-      lies on the chord) but the mesh has a T-junction there;
-    - "is_diagonal implies the ear is positively oriented" (the residual of DESIGN.md C01): an ear is clipped at a
-      REFLEX vertex when the chord v0-v2 happens to be an interior diagonal on the other side -- this happens at the
-      bridge vertex of a merged hole ([C01_orientation_refuted], known finding C01:orientation:holes). *)
+    - "the number of triangles is |L| - 2" holds for sanitize-stable runs only: the periodic [sanitize] may drop a
+      vertex that has become collinear without producing a triangle (the former witness now yields |L| - 2:
+      [C01_ntriangles_w2_now_exact]); the tiling is unaffected (the dropped vertex lies on the chord) but the mesh
+      has a T-junction there;
+    - (pinned tree, repaired by fix 4bb2ed8) "is_diagonal implies the ear is positively oriented": an ear was clipped
+      at a REFLEX vertex when the chord v0-v2 happened to be an interior diagonal on the other side -- at the bridge
+      vertex of a merged hole.  from_polygon now tests convexity and emptiness of the corner; regression witness
+      [C01_orientation_w1_now_ok]; that every clipped ear is positively oriented is now a THEOREM (Properties/C01_tiling.v). *)
 From Coq Require Import ZArith List Floats.
 Set Warnings "-inexact-float".
 From G3 Require Import Model.Num Model.NumF Model.Base Model.Vec Model.Segment Model.Triangle Model.Loop Model.Polygon Model.Triangulation
@@ -55,18 +57,19 @@ Proof.
   intros K NK P M H. destruct (from_polygon_structure P M H) as (Lm & H1 & H2 & H3 & H4 & _). exists Lm. split; assumption.
 Qed.
 
-(** the equality |triangles| = |L| - 2 is false: 8 vertices, 5 triangles *)
-Theorem C01_ntriangles_eq_refuted :
+(** the 8-vertex outline that produced 5 triangles (sanitize dropped a vertex that had become collinear) with the
+    pinned ear test now produces |L| - 2 = 6; the equality in general: [C01_ntriangles_stable] (Properties/C01_tiling.v) *)
+Theorem C01_ntriangles_w2_now_exact :
   exists (P : Poly float) (M : Mesh float) (Lm : Loop float), from_polygon P = Ok M /\ poly_get_closed_loop P = Ok Lm /\
-    snd (loop_close Lm) = Ok tt /\ llen (fst (loop_close Lm)) = 8 /\ length (tris M) = 5.
-Proof. destruct w2_fewer_triangles as (M & Lm & H). exists w2_poly, M, Lm. exact H. Qed.
+    snd (loop_close Lm) = Ok tt /\ llen (fst (loop_close Lm)) = 8 /\ length (tris M) = 6.
+Proof. destruct w2_triangle_count as (M & Lm & H). exists w2_poly, M, Lm. exact H. Qed.
 
-(** a successful triangulation of the unit square with a triangular hole contains a triangle whose normal is
-    opposite to the polygon's normal *)
-Theorem C01_orientation_refuted :
-  exists (P : Poly float) (M : Mesh float), from_polygon P = Ok M /\ length (pinner P) = 1 /\
-    existsb (fun t => PrimFloat.ltb (vdot (tnormal (tp_tri t)) (pnormal P)) 0%float) (tris M) = true.
-Proof. destruct w1_reversed_triangle as (M & H1 & H2 & H3). exists w1_poly, M. repeat split; assumption. Qed.
+(** regression witness of fix 4bb2ed8: the unit square with a triangular hole, whose triangulation used to contain a
+    triangle opposite to the polygon's normal (covering the hole), now gives 7 = |L| - 2 triangles, none reversed *)
+Theorem C01_orientation_w1_now_ok :
+  exists (P : Poly float) (M : Mesh float), from_polygon P = Ok M /\ length (pinner P) = 1 /\ length (tris M) = 7 /\
+    existsb (fun t => PrimFloat.ltb (vdot (tnormal (tp_tri t)) (pnormal P)) 0%float) (tris M) = false.
+Proof. destruct w1_now_positive as (M & H1 & H2 & H3 & H4). exists w1_poly, M. repeat split; assumption. Qed.
 
 (** non-vacuity: the unit square gives 2 = 4 - 2 triangles *)
 Example C01_nonvacuous : exists M, from_polygon w4_poly = Ok M /\ length (tris M) = 2 /\ nvalid M = 2.
